@@ -1,5 +1,6 @@
 import Proofs.OalLex
 import Proofs.OalTrack
+import Proofs.OalRegex
 import PyxModel.Oal.LexGen
 import Gen.OalTrack
 
@@ -166,6 +167,86 @@ example : findColumn sample 9 = 1 ∧ colOf sample 9 = 1 ∧ lineOf sample 9 = 3
 /-- an illegal character is skipped, an unterminated comment falls apart into DIV TIMES ..., nothing is rejected -/
 example : (lex "x $ /* y".toList).map (fun t => String.ofList t.kind) = ["ID", "DIV", "TIMES", "ID"] := by decide
 
+
+/-! ## the hand-written scanners ARE the regexes of the rule docstrings
+
+  `Pyx.Regex.Regex.matchPrefix` (PyxModel/Regex.lean) is a generic backtracking matcher with Python's `re` semantics
+  (leftmost, ordered alternation, greedy / lazy repetition giving characters back, look-ahead); `Gen.OalLex.rx_<RULE>`
+  is the AST Python's own regex parser gives for the rule's SOURCE regex (translator/regex_ast.py; a construct outside
+  the AST breaks the translator).  `ScannerIsRegex "R"`: the table has a rule R and, on EVERY input, the scanner the
+  proved lexer model uses for R returns what `matchPrefix` returns on `rx_R`.  Proved for every rule of the table, so
+  the lexer model of `line_exact`, `lexer_total`, `lex_case` and the layout theorems is, on every text, the lexer that
+  takes its lexemes from the generic matcher (`lexer_is_regex`).  What stays validated (K, on every case and on random
+  regexes against `re.match`): that `matchPrefix` is Python's matcher, and PLY's master-regex discipline. -/
+
+/-- `[a-zA-Z_][0-9a-zA-Z_]*|[a-zA-Z][0-9a-zA-Z_]*[0-9a-zA-Z_]+` (the second alternative is dead) -/
+theorem scanner_is_regex_ID : ScannerIsRegex "ID" := scannerIsRegex_of _ _ rfl
+
+/-- `\d+` (`\d` = str.isdecimal, Unicode 15 table) -/
+theorem scanner_is_regex_NUMBER : ScannerIsRegex "NUMBER" := scannerIsRegex_of _ _ rfl
+
+/-- `(((\d*\.\d+)|(\d+\.)([eE][-+]?\d+)?)|(\d+([eE][-+]?\d+)))[FfLl]?` -/
+theorem scanner_is_regex_FRACTION : ScannerIsRegex "FRACTION" := scannerIsRegex_of _ _ rfl
+
+/-- `([0-9a-zA-Z_])+(?=::)` -/
+theorem scanner_is_regex_NAMESPACE : ScannerIsRegex "NAMESPACE" := scannerIsRegex_of _ _ rfl
+
+/-- `"[^"\n]*"` -/
+theorem scanner_is_regex_STRING : ScannerIsRegex "STRING" := scannerIsRegex_of _ _ rfl
+
+/-- `\'[^\']*\'` -/
+theorem scanner_is_regex_TICKED_PHRASE : ScannerIsRegex "TICKED_PHRASE" := scannerIsRegex_of _ _ rfl
+
+/-- `\/\/.*\n` -/
+theorem scanner_is_regex_SL_STRING : ScannerIsRegex "SL_STRING" := scannerIsRegex_of _ _ rfl
+
+/-- `/\*([^*]|(\*+[^*/]))*\*+/` - a repetition of an alternation against the hand automaton `commentBody` -/
+theorem scanner_is_regex_COMMENT : ScannerIsRegex "COMMENT" := scannerIsRegex_of _ _ rfl
+
+/-- `[Ee][Nn][Dd][\s]+[Ff][Oo][Rr]` -/
+theorem scanner_is_regex_END_FOR : ScannerIsRegex "END_FOR" := scannerIsRegex_of _ _ rfl
+
+/-- `[Ee][Nn][Dd][\s]+[Ii][Ff]` -/
+theorem scanner_is_regex_END_IF : ScannerIsRegex "END_IF" := scannerIsRegex_of _ _ rfl
+
+/-- `[Ee][Nn][Dd][\s]+[Ww][Hh][Ii][Ll][Ee]` -/
+theorem scanner_is_regex_END_WHILE : ScannerIsRegex "END_WHILE" := scannerIsRegex_of _ _ rfl
+
+/-- `\n+` -/
+theorem scanner_is_regex_newline : ScannerIsRegex "newline" := scannerIsRegex_of _ _ rfl
+
+/-- every rule of the generated table (the 26 fixed-string rules included: their AST spells the literal the scanner
+    compares with), paired with the generated AST of its regex -/
+theorem scanner_is_regex (p : Rule × Pyx.Regex.Regex) (hp : p ∈ List.zip Gen.OalLex.rules Gen.OalLex.rx)
+    (cs : List Char) : scanOf p.1 cs = Pyx.Regex.Regex.matchPrefix p.2 cs :=
+  Pyx.OalLex.scanner_is_regex p hp cs
+
+/-- the table pairs every rule with an AST (same length), and the fixed-string rules are all there -/
+theorem scanner_is_regex_literals :
+    Gen.OalLex.rules.length = Gen.OalLex.rx.length ∧
+    ∀ p ∈ List.zip Gen.OalLex.rules Gen.OalLex.rx, ∀ s, p.1.lit = some s →
+      ∀ cs, scanLit s cs = Pyx.Regex.Regex.matchPrefix p.2 cs := by
+  refine ⟨table_tied.2, ?_⟩
+  intro p hp s hs cs
+  have := Pyx.OalLex.scanner_is_regex p hp cs
+  simpa only [scanOf, hs] using this
+
+/-- lexer_is_regex: on every text, the proved lexer model returns the token stream of the lexer that runs the generic
+    regex matcher on the generated ASTs under PLY's discipline (rules in definition order, first non-empty match) -/
+theorem lexer_is_regex (text : List Char) : lexRx text = lex text := lexRx_eq_lex text
+
+/-- non-vacuity: the matcher backtracks where the regex needs it (`\d+\.` after `\d*\.\d+` failed; the exponent is
+    given back when no digit follows), and the named rules exist with non-trivial ASTs -/
+example : Pyx.Regex.Regex.matchPrefix Gen.OalLex.rx_FRACTION "12.e+x".toList = some 3 ∧
+    Pyx.Regex.Regex.matchPrefix Gen.OalLex.rx_FRACTION "12.e+5L;".toList = some 7 ∧
+    Pyx.Regex.Regex.matchPrefix Gen.OalLex.rx_COMMENT "/* a ** / **/ x */".toList = some 13 ∧
+    Pyx.Regex.Regex.matchPrefix Gen.OalLex.rx_NAMESPACE "ab::c".toList = some 2 ∧
+    Pyx.Regex.Regex.matchPrefix Gen.OalLex.rx_NAMESPACE "ab:c".toList = none := by decide
+
+example : (ruleRx "FRACTION").map (fun p => String.ofList p.1.regex) =
+    some "(((\\d*\\.\\d+)|(\\d+\\.)([eE][-+]?\\d+)?)|(\\d+([eE][-+]?\\d+)))[FfLl]?" := by decide
+
+example : (lexRx sample).length = 8 := by decide
 
 /-! ## which tokens a node is stamped from: the production table of the parser (Gen/OalTrack.lean)
 
